@@ -89,11 +89,12 @@ type Sched struct {
 	Diverge string  // set when the prefix could not be replayed
 
 	Panics []string // unrecovered panics in managed goroutines ("would have crashed the process")
+	armSeq int
 	// Recovered: values returned non-nil by the program's own recover() calls (rewritten to NoteRecover)
 	Recovered []string
-	Events []string // pool tracker and other runtime events
-	Trace  []string // optional op trace (Debug)
-	Debug  bool
+	Events    []string // pool tracker and other runtime events
+	Trace     []string // optional op trace (Debug)
+	Debug     bool
 
 	clock   int64
 	timers  []*Timer
@@ -411,11 +412,11 @@ func PointOp(op Op) {
 // Dying reports whether the calling managed goroutine is being torn down at
 // the end of an execution (its remaining operations are no-ops).
 //
-//go:norace
 // NoteRecover is what the overlay turns recover() into: vsched.NoteRecover(recover()).
 // A panic the program contains is still a panic; properties that forbid "even a
 // recovered panic" read S.Recovered instead of guessing from log lines.
 //
+//go:norace
 //go:norace
 func NoteRecover(v any) any {
 	if v != nil && S != nil {
